@@ -223,6 +223,8 @@ func main() {
 		partC06(a, rep, univName, u)
 	case "C07":
 		partC07(a, rep, univName, u)
+	case "C09":
+		partC09(a, rep, univName, u)
 	case "C10":
 		partC10(a, rep, univName, u)
 	case "C13":
